@@ -460,6 +460,11 @@ def main(argv):
                 found = hook(lean, workdir, VH)
             except Exception as e:
                 obj['search_error'] = repr(e)
+        if not found:
+            # the correspondence / oracle runs above are the search: a violation they reported with a concrete input is the witness
+            concrete = [pth for (pth, sfx) in violations if sfx == '']
+            if concrete:
+                found = dict(see_replay=concrete[0], note='failing input found by the correspondence run of this check')
         if found:
             obj['failing_input'] = found
             violations.append((write_replay(prop, obj), ''))
